@@ -343,11 +343,12 @@ func init() {
 	register(&Property{
 		ID:          "C16",
 		Level:       "other",
-		Explanation: "Decides the structural necessary conditions of the injected-GER index: C16-cursor — the PP downloader's range fetch starts at its loop-carried cursor (start parameter or previous upper bound + 1), never at the freshly observed tip (the pinned tree violated this: fixed by commit 6642a29); C16-store — the ABI signatures of the two watched topics are those of the events their handlers parse (oracle: the ABI embedded in the contract binding), the handlers emit {BlockNum, GlobalExitRoot, L1InfoTreeIndex of the L1 info leaf looked up by that root, IsRemove}, the processor deletes by GER value only for removals and inserts the event's fields otherwise, both on the block's transaction; C16-query — the lookup statement selects the minimum l1_info_tree_index >= $1 bound to the argument; primary key (block_num) states the one-event-per-block assumption. Not decided: the FEP downloader's state polling (reads contract state at 'latest'), and liveness. Added after the sub-agent rounds: C16-latest (resume index = greatest imported index), C16-watch (the PP downloader watches exactly the configured GER manager), C16-stateless (the façade keeps no answers between calls). Added after round 7: C16-fk, C16-tracked, C16-restart (shared with C04-fk, C06-tracked, C05-restart).",
+		Explanation: "Decides the structural necessary conditions of the injected-GER index: C16-cursor — the PP downloader's range fetch starts at its loop-carried cursor (start parameter or previous upper bound + 1), never at the freshly observed tip (the pinned tree violated this: fixed by commit 6642a29); C16-store — the ABI signatures of the two watched topics are those of the events their handlers parse (oracle: the ABI embedded in the contract binding), the handlers emit {BlockNum, GlobalExitRoot, L1InfoTreeIndex of the L1 info leaf looked up by that root, IsRemove}, the processor deletes by GER value only for removals and inserts the event's fields otherwise, both on the block's transaction; C16-query — the lookup statement selects the minimum l1_info_tree_index >= $1 bound to the argument; primary key (block_num) states the one-event-per-block assumption. Not decided: the FEP downloader's state polling (reads contract state at 'latest'), and liveness. Added after the sub-agent rounds: C16-latest (resume index = greatest imported index), C16-watch (the PP downloader watches exactly the configured GER manager), C16-stateless (the façade keeps no answers between calls). Added after round 7: C16-fk, C16-tracked, C16-restart (shared with C04-fk, C06-tracked, C05-restart). Added after round 8: C16-notify (shared with C06-notify).",
 		Rules: []Rule{
 			{ID: "C16-fk", Floor: 4, Run: shared("C16-fk", c04FK), Text: "(shared with C04-fk) foreign keys on every pooled connection: a reorg removes the injected-GER rows of the dropped blocks"},
 			{ID: "C16-tracked", Floor: 3, Run: shared("C16-tracked", c06Tracked), Text: "(shared with C06-tracked) a restart does not forget the tracked blocks of the subscriber"},
 			{ID: "C16-restart", Floor: 3, Run: shared("C16-restart", c05Restart), Text: "(shared with C05-restart) after a reorg the download restarts behind the last processed block"},
+			{ID: "C16-notify", Floor: 8, Run: shared("C16-notify", c06Notify), Text: "(shared with C06-notify) a tracked block is dropped only after its hash was compared with the chain: a reorged injection that was finalized meanwhile is still reported"},
 			{ID: "C16-cursor", Floor: 1, Run: c16Cursor, Text: "[CURSOR] lower bound of the PP fetch is the loop-carried cursor"},
 			{ID: "C16-store", Floor: 8, Run: c16Store, Text: "[PROV]+[DOM]+ABI: topic/parser agreement, handler field maps, delete-by-GER / insert dispatch on the tx"},
 			{ID: "C16-handlers", Floor: 3, Run: c16Handlers, Text: "[DOM] a handler that returns nil has emitted its event; the FEP scan has no early exit"},
